@@ -6,6 +6,7 @@ From Coq Require Import List ZArith Bool Permutation.
 From LJT Require Import model.MemMgr model.TjInit model.DestBuf model.VirtAccess model.MemCfg gen.GenMemConst
   proofs.MemMgrProofs proofs.MemMgrWrap proofs.MemMgrLimits proofs.TjInitProofs proofs.DestBufProofs
   proofs.VirtAccessProofs proofs.MemMgrGeom proofs.MemMgrExamples.
+From LJT Require Import model.TjAlloc model.SizeExpr gen.GenTjAlloc proofs.SizeExprProofs proofs.TjAllocProofs.
 Import ListNotations.
 Local Open Scope Z_scope.
 
@@ -274,7 +275,43 @@ Theorem C14_pool_geometry_all_runs : forall c ops oracle,
 Proof. exact pool_geometry_all_runs. Qed.
 Print Assumptions C14_pool_geometry_all_runs.
 
+(* (10) allocation / release structure of every TurboJPEG function that acquires a resource, as programs GENERATED from
+   turbojpeg.c / turbojpeg-mp.c (gen/GenTjAlloc.v; model/TjAlloc.v).  For every generated program, whichever choice point
+   fails first (any malloc/tj3Init/fopen returning NULL, any THROW, any libjpeg call longjmp-ing to the handler -- the least
+   element of any set of failures), for every component count and both initial states of instance-owned members:
+   no pointer is released while indeterminate (all are NULL-initialised before the first jump) or twice, no libjpeg call can
+   longjmp before a handler exists, and on return only blocks handed to the caller (on success) or owned by the instance
+   are still allocated.  T1-finite: nc <= MAX_COMPONENTS, first failure index <= 200 (>= the number of choice points). *)
+Theorem C14_tj_alloc_programs_safe : forall p, In p tj_progs ->
+  forall own0 nc k, (nc <= MAXC)%nat -> (k <= 200)%nat -> safe_b p (trun p own0 nc k) = true.
+Proof. exact tj_alloc_safe. Qed.
+Print Assumptions C14_tj_alloc_programs_safe.
+
+Theorem C14_tj_alloc_choice_points_covered :
+  forallb (fun p => choice_points p <=? 200)%nat tj_progs = true /\ (28 <=? tj_acquisition_sites)%nat = true.
+Proof. exact choice_points_bound. Qed.
+Print Assumptions C14_tj_alloc_choice_points_covered.
+
+(* (11) the size expression of every malloc site (generated) evaluates in C (size_t / unsigned arithmetic) to its integer
+   value -- no wrap -- for all values of its variables within the stated bounds *)
+Theorem C14_tj_malloc_sizes_do_not_wrap : forall e env, In e tj_size_exprs -> env_ok tj_size_bounds env ->
+  wrapped e env = exact e env /\ 0 <= exact e env <= ub tj_size_bounds e.
+Proof. exact tj_malloc_sizes_do_not_wrap. Qed.
+Print Assumptions C14_tj_malloc_sizes_do_not_wrap.
+
+Theorem C14_size_interval_analysis_sound : forall bd e env, fits bd e = true -> env_ok bd env ->
+  wrapped e env = exact e env /\ 0 <= exact e env <= ub bd e.
+Proof. exact fits_sound. Qed.
+Print Assumptions C14_size_interval_analysis_sound.
+
 (* ------------------------------------------------------------ non-vacuity *)
+Example C14_ex_tj_alloc_checker_rejects : check broken1 = false /\ check broken2 = false /\ check broken3 = false.
+Proof. exact broken_rejected. Qed.
+
+Example C14_ex_size_exprs : (20 <=? length tj_size_exprs)%nat = true /\
+  fits tj_size_bounds (SMul 32 (SVar 1) (SVar 1)) = false.
+Proof. exact size_exprs_nonvacuous. Qed.
+
 Example C14_ex_virt_swapping :
   (forall L, VI ex_va L) /\
   snd (vrun ex_va ex_vops) =
